@@ -3,7 +3,10 @@
 //! One sub-command per property; prints a JSON report on stdout (or --out file).
 //! Verdicts are decided by the `check` driver from this report.
 
-// mod fields;
+mod c07;
+mod c08;
+mod c11;
+mod fields;
 mod framing;
 mod gen;
 mod mon;
@@ -83,6 +86,10 @@ fn main() {
     let params = Params { prop: prop.clone(), thorough, seed, profile, workers: par::workers() };
 
     mon::install_panic_hook();
+    if !oracle::bits::self_check_fast() {
+        eprintln!("reference bit writer self-check failed");
+        std::process::exit(2);
+    }
     if !oracle::crc::self_check() {
         eprintln!("reference CRC self-check failed");
         std::process::exit(2);
@@ -137,6 +144,9 @@ fn dispatch(p: &Params) -> Outcome {
         "C05" => framing::c05(p),
         "C06" => framing::c06(p),
         "C13" => framing::c13(p),
+        "C07" => c07::run(p),
+        "C08" => c08::run(p),
+        "C11" => c11::run(p),
         _ => {
             eprintln!("unknown property {}", p.prop);
             std::process::exit(2)
@@ -147,6 +157,9 @@ fn dispatch(p: &Params) -> Outcome {
 fn dispatch_replay(p: &Params, v: &Value) -> Outcome {
     match p.prop.as_str() {
         "C03" | "C04" | "C05" | "C06" | "C13" => framing::replay(p, v),
+        "C07" => c07::replay(p, v),
+        "C08" => c08::replay(p, v),
+        "C11" => c11::replay(p, v),
         _ => {
             eprintln!("unknown property {}", p.prop);
             std::process::exit(2)
